@@ -6,7 +6,7 @@ P=$1
 W=/work/$P
 echo "== repo commits to pick"
 git -C /repo fetch -q $W/repo HEAD
-commits=$(git -C /repo rev-list --reverse HEAD..FETCH_HEAD)
+commits=$(git -C /repo rev-list --reverse --no-merges HEAD..FETCH_HEAD)
 for c in $commits; do
   msg=$(git -C /repo log -1 --format=%s $c)
   if git -C /repo log --format=%s | grep -qxF "$msg"; then echo "skip (already present) $msg"; continue; fi
@@ -15,6 +15,7 @@ for c in $commits; do
 done
 echo "== verif merge"
 cd /verif
+git checkout -q -- evidence 2>/dev/null || true
 git fetch -q $W/verif HEAD
 git merge --no-edit FETCH_HEAD || true
 for id in "$@"; do
